@@ -1,0 +1,90 @@
+//! Verification hooks, compiled in only with the cargo feature `verif`.
+//!
+//! A deterministic simulator installs a handler and is then told about every
+//! named point the write paths cross (used as kill points and as yield points),
+//! may ask a fail-point to return an error through the normal `?` path, and is
+//! told when a thread is about to take / has released the LMDB writer lock.
+//! With no handler installed every hook is a no-op.
+
+use std::sync::{Arc, RwLock};
+
+/// What a simulator implements
+pub trait Hooks: Send + Sync {
+    /// A named point has been reached
+    fn point(&self, name: &'static str);
+
+    /// Should the named fail-point fail now?
+    fn fail(&self, name: &'static str) -> bool;
+
+    /// The calling thread is about to acquire the LMDB writer lock
+    fn writer_enter(&self);
+
+    /// The calling thread no longer holds the LMDB writer lock
+    fn writer_exit(&self);
+}
+
+static HOOKS: RwLock<Option<Arc<dyn Hooks>>> = RwLock::new(None);
+
+fn current() -> Option<Arc<dyn Hooks>> {
+    match HOOKS.read() {
+        Ok(g) => g.clone(),
+        Err(_) => None,
+    }
+}
+
+/// Install (or remove) the process-wide handler
+pub fn install(hooks: Option<Arc<dyn Hooks>>) {
+    if let Ok(mut g) = HOOKS.write() {
+        *g = hooks;
+    }
+}
+
+/// Is a handler installed?
+pub fn active() -> bool {
+    current().is_some()
+}
+
+/// Report a named point
+pub fn point(name: &'static str) {
+    if let Some(h) = current() {
+        h.point(name);
+    }
+}
+
+/// Ask whether a fail-point should fail
+pub fn fail(name: &'static str) -> bool {
+    match current() {
+        Some(h) => h.fail(name),
+        None => false,
+    }
+}
+
+/// Report that the writer lock is about to be taken
+pub fn writer_enter() {
+    if let Some(h) = current() {
+        h.writer_enter();
+    }
+}
+
+/// A guard that reports release of the writer lock when dropped. Declare it
+/// before the write transaction so that it is dropped after it.
+#[derive(Debug)]
+pub struct WriterScope(());
+
+/// Create a `WriterScope`
+pub fn writer_scope() -> WriterScope {
+    WriterScope(())
+}
+
+impl Drop for WriterScope {
+    fn drop(&mut self) {
+        if let Some(h) = current() {
+            h.writer_exit();
+        }
+    }
+}
+
+/// The error an injected failure produces
+pub fn injected(name: &'static str) -> crate::Error {
+    crate::InnerError::General(format!("verif: injected failure at {name}")).into()
+}
